@@ -10,6 +10,7 @@ import (
 	"hash/fnv"
 	"net"
 	"net/http"
+	"slices"
 	"sort"
 	"sync"
 	"time"
@@ -123,6 +124,11 @@ func NewPeerPool(cfg PeerPoolConfig) (*PeerPool, error) {
 
 	// Sort peers for consistent hashing
 	sort.Strings(allPeers)
+
+	// Drop repeated entries. RemovePeer removes one entry per call, so a peer listed
+	// twice would stay in the hash ring after it was removed and this node would keep
+	// routing that peer's subscribers to it while the other nodes moved on.
+	allPeers = slices.Compact(allPeers)
 
 	logger := cfg.Logger
 	if logger == nil {
